@@ -1,6 +1,95 @@
 package props
 
-import "verif/internal/fw"
+import (
+	"encoding/json"
+	"reflect"
 
-// typeCase is replaced once the type corpus exists (c10 part 4).
-func (p c10) typeCase(c *fw.Case) { p.structCase(c) }
+	"github.com/google/jsonschema-go/jsonschema"
+
+	"verif/internal/fw"
+	"verif/internal/gen"
+	"verif/internal/typecorpus"
+)
+
+// typeCase: For/ForType over the type corpus and reflect-built types incl. recursive ones, unsupported kinds at
+// depth, with/without IgnoreInvalidTypes and with hostile TypeSchemas; the result (if any) must marshal, resolve
+// and validate without panicking.
+func (p c10) typeCase(c *fw.Case) {
+	r := c.R
+	var t reflect.Type
+	switch r.IntN(6) {
+	case 0:
+		t = gen.Pick(r, typecorpus.Recursive)
+	case 1:
+		t = gen.Pick(r, typecorpus.Unsupported)
+	case 2:
+		t = gen.Pick(r, append(append([]reflect.Type{}, typecorpus.PlainData...), typecorpus.WithStd...))
+	case 3:
+		// unsupported / recursive kinds wrapped at depth by reflect
+		inner := gen.Pick(r, append(append([]reflect.Type{}, typecorpus.Recursive...), typecorpus.Unsupported...))
+		switch r.IntN(4) {
+		case 0:
+			t = reflect.SliceOf(reflect.PointerTo(inner))
+		case 1:
+			t = reflect.MapOf(reflect.TypeFor[string](), reflect.ArrayOf(2, inner))
+		case 2:
+			t = reflect.StructOf([]reflect.StructField{{Name: "A", Type: reflect.TypeFor[int]()}, {Name: "B", Type: reflect.PointerTo(reflect.SliceOf(inner)), Tag: `json:"b,omitempty"`}})
+		default:
+			t = reflect.PointerTo(reflect.PointerTo(inner))
+		}
+	default:
+		t = gen.SafeRandType(r, gen.TypeOpts{MaxDepth: 2 + r.IntN(4)})
+	}
+	var opts *jsonschema.ForOptions
+	switch r.IntN(5) {
+	case 0:
+	case 1:
+		opts = &jsonschema.ForOptions{IgnoreInvalidTypes: true}
+	case 2: // hostile TypeSchemas
+		shared := &jsonschema.Schema{Type: "string"}
+		cyc := &jsonschema.Schema{}
+		cyc.Not = &jsonschema.Schema{AllOf: []*jsonschema.Schema{shared, shared}}
+		opts = &jsonschema.ForOptions{IgnoreInvalidTypes: r.IntN(2) == 0, TypeSchemas: map[reflect.Type]*jsonschema.Schema{
+			reflect.TypeFor[typecorpus.Inner]():   gen.Pick(r, []*jsonschema.Schema{nil, shared, cyc, {Type: "object"}}),
+			reflect.TypeFor[typecorpus.EmbBase](): gen.Pick(r, []*jsonschema.Schema{nil, {Type: "string"}, {Type: "object", Required: []string{"zz"}}, {Type: "object", Properties: map[string]*jsonschema.Schema{"base_a": nil, "q": shared}}}),
+			reflect.TypeFor[int]():                gen.Pick(r, []*jsonschema.Schema{nil, {Types: []string{}}, {Type: "bogus", Types: []string{"x"}}}),
+			reflect.TypeFor[typecorpus.Rec]():     {Type: "object"},
+			reflect.TypeFor[chan int]():           {Type: "null"},
+		}}
+	default:
+		opts = gen.Pick(r, []*jsonschema.ForOptions{customOpts(), {}})
+	}
+	var s *jsonschema.Schema
+	var err error
+	if !c.CallChecked("ForType", map[string]any{"type": t.String(), "options": opts != nil}, func() { s, err = jsonschema.ForType(t, opts) }) {
+		return
+	}
+	c.Eval(1)
+	c.Nontrivial("ForType|" + errClass(err))
+	if err != nil || s == nil {
+		return
+	}
+	if !isTree(s, map[*jsonschema.Schema]bool{}) {
+		c.Count("inferred_schema_not_a_tree(hostile TypeSchemas)", 1)
+		// Resolve must still return (an error)
+		if !c.CallChecked("Resolve", t.String(), func() { _, err = s.Resolve(nil) }) {
+			return
+		}
+		c.Eval(1)
+		return
+	}
+	var data []byte
+	if !c.CallChecked("Marshal", t.String(), func() { data, err = json.Marshal(s) }) {
+		return
+	}
+	c.Eval(1)
+	var rs *jsonschema.Resolved
+	var rerr error
+	if !c.CallChecked("Resolve", t.String(), func() { rs, rerr = s.Resolve(nil) }) {
+		return
+	}
+	c.Eval(1)
+	if rerr == nil && err == nil {
+		p.exercise(c, rs, string(data), false, false, "inferred")
+	}
+}
